@@ -637,6 +637,10 @@ pub trait Vec1View<T>: TIter<T> {
                 window > 0 || self.len() == 0,
                 "window must be greater than 0"
             );
+            assert!(
+                other.len() >= self.len(),
+                "the second series must not be shorter than the first"
+            );
             let remove_value_iter = std::iter::repeat_n(None, window.saturating_sub(1))
                 .chain(self.titer().zip(other.titer()).map(Some));
             Some(
@@ -873,6 +877,10 @@ pub trait Vec1View<T>: TIter<T> {
             assert!(
                 window > 0 || self.len() == 0,
                 "window must be greater than 0"
+            );
+            assert!(
+                other.len() >= self.len(),
+                "the second series must not be shorter than the first"
             );
             let start_iter = std::iter::repeat_n(None, window.saturating_sub(1))
                 .chain((0..self.len()).map(Some)); // this is longer than expect, but start_iter will stop earlier
